@@ -523,7 +523,7 @@ class C16(Sim):
                     mut = {"listed": rng.choice(LISTED), "seed": rng.randrange(1 << 30)}
                 else:
                     mut = with_lex(rng, {"generic": pick_generic(rng), "seed": rng.randrange(1 << 30), "times": rng.choice([1, 1, 2])})
-                ops.append({"op": "fresh_rule", "b": bi, "r": ri, "mut": mut, "via": rng.choice(["create", "importer", "importer_block", "create", "importer", "importer_block", "create_empty", "importer_block_empty"])})
+                ops.append({"op": "fresh_rule", "b": bi, "r": ri, "mut": mut, "via": rng.choice(["create", "importer", "importer_block", "create", "importer", "importer_block", "create_empty", "importer_block_empty", "create_unregistered_hedge"])})
             elif r < 0.44:
                 ops.append({"op": "rename_check", "b": bi, "r": ri, "pick": rng.randrange(8)})
             elif r < 0.48:
@@ -800,7 +800,20 @@ class C16(Sim):
                 exc = None
                 made = []
                 try:
-                    if op["via"] == "create_empty":
+                    if op["via"] == "create_unregistered_hedge":
+                        # a hedge that was registered (and used) before and is no longer: as unknown as any other word
+                        hw = text.split()
+                        if "is" in hw and "#" not in text:
+                            j = hw.index("is")
+                            text = " ".join(hw[:j + 1] + ["userhalf"] + hw[j + 1:])
+                        reg = fl.settings.factory_manager.hedge.constructors
+                        saved_ctor = reg.pop("userhalf", None)
+                        try:
+                            made = [fl.Rule.create(text, E)]
+                        finally:
+                            if saved_ctor is not None:
+                                reg["userhalf"] = saved_ctor
+                    elif op["via"] == "create_empty":
                         # against an engine without any variable every rule names an unknown variable
                         made = [fl.Rule.create(text, fl.Engine("empty"))]
                     elif op["via"] == "importer_block_empty":
@@ -822,7 +835,10 @@ class C16(Sim):
                 if outcome == "internal":
                     v = Violation("internal_error_on_rule_text", i, exception=type(exc).__name__, message=str(exc)[:160], via=op["via"], text=text)
                 elif outcome == "accepted":
-                    if op["via"].endswith("_empty"):
+                    if op["via"] == "create_unregistered_hedge":
+                        if "#" not in text and " is userhalf " in f" {text} ":
+                            v = Violation("rule_with_listed_error_accepted", i, error_class="unknown_name (a hedge that is not registered any more)", text=text[:300], via=op["via"])
+                    elif op["via"].endswith("_empty"):
                         if "#" not in text:
                             v = Violation("rule_with_listed_error_accepted", i, error_class="unknown_name (engine without variables)", text=text, via=op["via"])
                     elif listed is not None and "#" not in text:
